@@ -12,39 +12,39 @@ open OttoVerif OttoVerif.Proto OttoVerif.F64
 def numOut : Option FV → String | some v => f64Out v | none => "error"
 def strOut : Option (List Nat) → String | some b => "s:" ++ bytesOut b | none => "error"
 
-/-- region `octal_literal_overflow`: a legacy octal literal ≥ 2^63: ParseInt overflows and ParseFloat reads the digits as DECIMAL.
-    region `hex_literal_rounding`: a hex literal ≥ 2^63 (so ParseInt overflows and the float loop runs) that is not
-    exactly representable — the per-digit rounding can differ from the single correct rounding -/
-def devNum (bs : List Nat) : String :=
-  match bs with
-  | 48 :: x :: ds =>
-    if (x = 120 ∨ x = 88) ∧ !ds.isEmpty ∧ ds.all (fun c => (LitSpec.hexVal c).isSome) then
-      let v := LitSpec.digitsVal 16 ds
-      if v ≥ 2^63 ∧ v % 2^(Nat.log2 v - 52) ≠ 0 then "hex_literal_rounding" else "-"
-    else if LitSpec.isDec x ∧ (x :: ds).all LitSpec.isOctD ∧ LitSpec.digitsVal 8 (x :: ds) ≥ 2^63 then "octal_literal_overflow"
-    else "-"
-  | _ => "-"
+/-- skip line continuations (rune level): `\\` LF | `\\` CR LF | `\\` CR | `\\` LS | `\\` PS -/
+def skipConts : Nat → List Nat → List Nat
+  | 0, s => s
+  | f+1, 92 :: 13 :: 10 :: r => skipConts f r
+  | f+1, 92 :: c :: r => if c = 10 ∨ c = 13 ∨ c = 0x2028 ∨ c = 0x2029 then skipConts f r else 92 :: c :: r
+  | _, s => s
 
-/-- backslash parity matters: scan escape by escape -/
-def scanEsc (fuel : Nat) (s : List Nat) (f : Nat → List Nat → Bool) : Bool :=
-  match fuel, s with
+def escVal (s : List Nat) : Option Nat :=
+  match s with
+  | 92 :: 117 :: r => LitSpec.hexU 4 r
+  | _ => none
+
+/-- region `surrogate_pair_split`: an escaped high surrogate, then one or more line continuations, then an escaped low
+    surrogate.  The value has the two code units adjacent (ES5 7.8.4), the code only pairs directly adjacent escapes. -/
+def splitPair : Nat → List Nat → Bool
   | 0, _ => false
   | _, [] => false
-  | fuel+1, 92 :: e :: r => f e r || scanEsc fuel r f
-  | fuel+1, _ :: r => scanEsc fuel r f
-
-def devStr (rs : List Nat) : String :=
-  let n := rs.length + 1
-  let sur := scanEsc n rs fun e r => e == 117 && (match LitSpec.hexU 4 r with | some v => decide (0xD800 ≤ v ∧ v ≤ 0xDFFF) | none => false)
-  let oct := scanEsc n rs fun e r => decide (52 ≤ e ∧ e ≤ 55) && (match r with | a :: b :: _ => LitSpec.isOctD a && LitSpec.isOctD b | _ => false)
-  let lsps := scanEsc n rs fun e _ => e == 0x2028 || e == 0x2029
-  let ds := (if sur then ["surrogate_escape"] else []) ++ (if oct then ["octal_escape_4to7"] else []) ++ (if lsps then ["line_continuation_ls_ps"] else [])
-  if ds.isEmpty then "-" else ",".intercalate ds
+  | f+1, 92 :: e :: r =>
+    (if e = 117 then
+      (match LitSpec.hexU 4 r with
+       | some v =>
+         let after := r.drop 4
+         let after' := skipConts (after.length + 1) after
+         decide (0xD800 ≤ v ∧ v < 0xDC00) && after'.length < after.length &&
+           (match escVal after' with | some lo => decide (0xDC00 ≤ lo ∧ lo < 0xE000) | none => false)
+       | none => false)
+     else false) || splitPair f r
+  | f+1, _ :: r => splitPair f r
 
 def handleNum (ws : List String) : String :=
   match ws with
   | [h] => match bytes? (h.drop 1).toString with
-    | some bs => numOut (LitModel.parseNumberLiteral bs) ++ " " ++ numOut (LitSpec.numberValue bs) ++ " " ++ devNum bs
+    | some bs => numOut (LitModel.parseNumberLiteral bs) ++ " " ++ numOut (LitSpec.numberValue bs) ++ " -"
     | none => "bad-request bad-request -"
   | _ => "bad-request bad-request -"
 
@@ -53,7 +53,7 @@ def handleStr (ws : List String) : String :=
   | [h] => match bytes? (h.drop 1).toString with
     | some bs =>
       let rs := Str.decodeRunes bs
-      strOut (LitModel.parseStringLiteral bs) ++ " " ++ strOut ((LitSpec.sv (rs.length + 1) rs).map Str.bytesOfUnits) ++ " " ++ devStr rs
+      strOut (LitModel.parseStringLiteral bs) ++ " " ++ strOut ((LitSpec.sv (rs.length + 1) rs).map Str.bytesOfUnits) ++ " " ++ (if splitPair (rs.length + 1) rs then "surrogate_pair_split" else "-")
     | none => "bad-request bad-request -"
   | _ => "bad-request bad-request -"
 
